@@ -484,14 +484,21 @@ def run(tier: str, seed: int, replay: str | None = None) -> int:
                     n_fail += 1
                     rep.failing_input({"stream": "tree", "project_index": k, "file": fn, "why": why,
                                        "features": sorted(feats), "text": text}, classify(why, feats))
+        # ---------------- ptype stream: parse_type vs FordModel/TypeSpec.lean + spelling oracle
+        from harness import c01_ptype
+        pt = c01_ptype.run_stream(drv, ford, random.Random(seed * 424243 + 5),
+                                  6000 if tier == "quick" else 120000, 1500 if tier == "quick" else 30000, rep)
+        n_dis += pt["disagree"]
+        n_fail += pt["oracle_fail"]
     rep.coverage.update(
-        evaluations=len(cases) + n_files,
+        evaluations=len(cases) + n_files + pt["cases"] + pt["groups"],
         distinct_nontrivial=len(distinct),
         rule="struct: statement-kind sequences (well-formed nestings, 1-3 point mutations of them, junk), distinct by token "
              "sequence; tree: generated abstract projects x random spellings, one evaluation per source file, distinct by text; "
              "every case has at least one container",
         samples=samples,
-        traces_validated_against_impl=len(cases),
+        traces_validated_against_impl=len(cases) + pt["cases"] - pt["unmodelled"],
+        ptype_stream=pt,
         correspondence_disagreements=n_dis,
         oracle_failures=n_fail,
         struct_kind_histogram=hist,
@@ -500,6 +507,8 @@ def run(tier: str, seed: int, replay: str | None = None) -> int:
     )
     rep.assumptions += [
         "which concrete statements each cascade regex accepts is tied by differential execution only (no Lean regex semantics)",
+        "parse_type is modelled at character level (TypeSpec.lean) for ASCII input without line feeds; a quote inside a character kind "
+        "expression is answered `unmodelled` by the model and skipped (counted) in the correspondence",
         "include, preprocessor, extra_vartypes, settings.lower and fixed form are outside the abstract program model",
         "tree stream observes FortranSourceFile objects (parse + _cleanup), before Project.correlate",
     ]
